@@ -51,19 +51,100 @@ func fieldStoresOf(f *ssa.Function, base ssa.Value) []fieldStore {
 	return out
 }
 
+// handshakePart: the function of the relay's handshake that contains calls of all the given steps — handshake()
+// itself, or the one helper it calls directly that does (the narrowing may live in a helper of its own).
+func (c *Ctx) handshakePart(steps ...string) *ssa.Function {
+	h := c.fn("TrzszRelay.handshake")
+	has := func(f *ssa.Function) bool {
+		for _, s := range steps {
+			if len(callsIn(f, idIs(s))) == 0 {
+				return false
+			}
+		}
+		return true
+	}
+	if has(h) {
+		return h
+	}
+	var found *ssa.Function
+	for _, ci := range callsIn(h, anyID) {
+		g := ci.Common().StaticCallee()
+		if g != nil && c.inPkg(g) && len(g.Blocks) > 0 && has(g) {
+			if found != nil && found != g {
+				return h
+			}
+			found = g
+		}
+	}
+	if found != nil {
+		return found
+	}
+	return h
+}
+
+// narrowScope: where the relay rewrites obj between receiving and re-sending it. Either the function f that contains
+// both steps (from = the receive, to = the re-send), or — when f hands obj to exactly one helper of the package in
+// between and does not touch its fields itself — that helper (obj = its parameter, from = entry, to = its returns).
+type narrowScope struct {
+	fn       *ssa.Function
+	obj      ssa.Value
+	inScope  func(in ssa.Instruction) bool // the instruction lies between receive and re-send
+	isEnd    func(in ssa.Instruction) bool // the re-send (or the helper's return)
+	startBlk *ssa.BasicBlock
+	startIdx int
+}
+
+func (c *Ctx) narrowScopeOf(f *ssa.Function, obj ssa.Value, recv, send ssa.Instruction) narrowScope {
+	own := narrowScope{fn: f, obj: obj,
+		inScope:  func(in ssa.Instruction) bool { return domI(recv, in) && domI(in, send) },
+		isEnd:    func(in ssa.Instruction) bool { return in == send },
+		startBlk: recv.Block(), startIdx: instrIndex(recv) + 1}
+	if len(fieldStoresOf(f, obj)) > 0 {
+		return own
+	}
+	var helper *ssa.Function
+	var pidx int
+	n := 0
+	for _, ci := range callsIn(f, anyID) {
+		in := ci.(ssa.Instruction)
+		if in == send || !domI(recv, in) || !domI(in, send) {
+			continue
+		}
+		g := ci.Common().StaticCallee()
+		if g == nil || !c.inPkg(g) || len(g.Blocks) == 0 {
+			continue
+		}
+		for i, a := range ci.Common().Args {
+			if sameValue(a, obj) && i < len(g.Params) {
+				helper, pidx = g, i
+				n++
+			}
+		}
+	}
+	if n != 1 {
+		return own
+	}
+	return narrowScope{fn: helper, obj: helper.Params[pidx],
+		inScope:  func(in ssa.Instruction) bool { return true },
+		isEnd:    isReturn,
+		startBlk: helper.Blocks[0], startIdx: 0}
+}
+
 func c14R1(c *Ctx) {
-	f := c.fn("TrzszRelay.handshake")
+	f := c.handshakePart("(*trzsz.TrzszRelay).recvAction", "(*trzsz.TrzszRelay).sendAction")
 	maxProto := c.constVal("kProtocolVersion")
 	ra := callsIn(f, idIs("(*trzsz.TrzszRelay).recvAction"))
 	sa := callsIn(f, idIs("(*trzsz.TrzszRelay).sendAction"))
 	if len(ra) != 1 || len(sa) != 1 {
 		c.lost("recvAction/sendAction in relay handshake")
 	}
-	action := extractOf(ra[0].(*ssa.Call), 0)
-	c.check(sameValue(sa[0].Common().Args[1], action), "handshake/resend-same-action", c.ipos(sa[0]), "the action re-sent is the one received", "the relay sends a different action object than it received")
+	action0 := extractOf(ra[0].(*ssa.Call), 0)
+	c.check(sameValue(sa[0].Common().Args[1], action0), "handshake/resend-same-action", c.ipos(sa[0]), "the action re-sent is the one received", "the relay sends a different action object than it received")
+	sc0 := c.narrowScopeOf(f, action0, ra[0].(ssa.Instruction), sa[0].(ssa.Instruction))
+	nf0, action := sc0.fn, sc0.obj
 	caps := map[string]bool{"SupportBinary": true, "SupportDirectory": true, "SupportFork": true}
 	clearedBinary := []ssa.Instruction{}
-	for _, fs := range fieldStoresOf(f, action) {
+	for _, fs := range fieldStoresOf(nf0, action) {
 		key := "handshake/action." + fs.Field
 		switch {
 		case caps[fs.Field]:
@@ -82,9 +163,9 @@ func c14R1(c *Ctx) {
 	}
 	// without tunnel: binary cleared before the re-send
 	var tunIf *ssa.If
-	for _, b := range f.Blocks {
+	for _, b := range nf0.Blocks {
 		i := blockIf(b)
-		if i == nil || !domI(ra[0].(ssa.Instruction), i) || !domI(i, sa[0].(ssa.Instruction)) {
+		if i == nil || !sc0.inScope(i) {
 			continue
 		}
 		nf := normFact(fact{V: i.Cond, Pol: true})
@@ -94,7 +175,7 @@ func c14R1(c *Ctx) {
 			if !nf.Pol {
 				k = 0
 			}
-			hit, path := reachFrom(i.Block().Succs[k], 0, func(in ssa.Instruction) bool { return in == sa[0].(ssa.Instruction) }, func(in ssa.Instruction) bool {
+			hit, path := reachFrom(i.Block().Succs[k], 0, sc0.isEnd, func(in ssa.Instruction) bool {
 				for _, s := range clearedBinary {
 					if s == in {
 						return true
@@ -106,19 +187,19 @@ func c14R1(c *Ctx) {
 		}
 	}
 	if tunIf == nil {
-		c.bad("handshake/no-tunnel=>binary-off", c.pos(f.Pos()), "no test of the client's tunnel flag before re-sending the action: binary is not cleared without a tunnel")
+		c.bad("handshake/no-tunnel=>binary-off", c.pos(nf0.Pos()), "no test of the client's tunnel flag before re-sending the action: binary is not cleared without a tunnel")
 	}
 	// protocol clamp exists on every path to the re-send
 	clampIf := false
-	for _, b := range f.Blocks {
+	for _, b := range nf0.Blocks {
 		i := blockIf(b)
-		if i == nil || !domI(i, sa[0].(ssa.Instruction)) {
+		if i == nil || !sc0.inScope(i) {
 			continue
 		}
 		op, x, y, ok := cmpFact(normFact(fact{V: i.Cond, Pol: true}))
 		if ok && op == token.GTR && isFieldLoad("Protocol")(x) && isConstIntV(maxProto)(y) {
-			// true edge must store Protocol = max before sendAction
-			hit, path := reachFrom(b.Succs[0], 0, func(in ssa.Instruction) bool { return in == sa[0].(ssa.Instruction) }, func(in ssa.Instruction) bool {
+			// true edge must store Protocol = max before the re-send
+			hit, path := reachFrom(b.Succs[0], 0, sc0.isEnd, func(in ssa.Instruction) bool {
 				st, ok := in.(*ssa.Store)
 				if !ok {
 					return false
@@ -155,14 +236,17 @@ func c14R1(c *Ctx) {
 		})
 	}
 	// config rewrites
-	rc := callsIn(f, idIs("(*trzsz.TrzszRelay).recvConfig"))
-	sc := callsIn(f, idIs("(*trzsz.TrzszRelay).sendConfig"))
+	fcfg := c.handshakePart("(*trzsz.TrzszRelay).recvConfig", "(*trzsz.TrzszRelay).sendConfig")
+	rc := callsIn(fcfg, idIs("(*trzsz.TrzszRelay).recvConfig"))
+	sc := callsIn(fcfg, idIs("(*trzsz.TrzszRelay).sendConfig"))
 	if len(rc) != 1 || len(sc) != 1 {
 		c.lost("recvConfig/sendConfig in relay handshake")
 	}
-	config := extractOf(rc[0].(*ssa.Call), 0)
-	c.check(sameValue(sc[0].Common().Args[1], config), "handshake/resend-same-config", c.ipos(sc[0]), "the config re-sent is the one received", "the relay sends a different config object than it received")
-	for _, fs := range fieldStoresOf(f, config) {
+	config0 := extractOf(rc[0].(*ssa.Call), 0)
+	c.check(sameValue(sc[0].Common().Args[1], config0), "handshake/resend-same-config", c.ipos(sc[0]), "the config re-sent is the one received", "the relay sends a different config object than it received")
+	scC := c.narrowScopeOf(fcfg, config0, rc[0].(ssa.Instruction), sc[0].(ssa.Instruction))
+	config := scC.obj
+	for _, fs := range fieldStoresOf(scC.fn, config) {
 		key := "handshake/config." + fs.Field
 		switch fs.Field {
 		case "TmuxOutputJunk":
